@@ -199,6 +199,49 @@ func VerifH_KeyLockMulti() {
 	symx.Reach("end")
 }
 
+// C02/H2b: single-key and multi-key calls mixed on the same keys (generic lockers, single and sharded with
+// modulo or xxhash routing): a multi-key writer of [a,b], a single-key writer of b and a single-key
+// reader of a - every interleaving: both ways of locking a key exclude each other, nobody deadlocks,
+// no per-key state is left.
+func VerifH_KeyLockMixed() {
+	symx.MapOrderAll()
+	lk := verifNewLocker()
+	symx.Assume(lk.t != nil)
+	a, b := symx.Int("a"), symx.Int("b")
+	symx.Assume(a < b)
+	ma, mb := &verifKeyMon{}, &verifKeyMon{}
+	multiReads := symx.Bool("multiReads")
+	t1 := symx.Go("multi", func() {
+		if multiReads {
+			lk.t.RLocks([]int{a, b})
+			ma.read()
+			mb.read()
+			lk.t.RUnlocks([]int{a, b})
+		} else {
+			lk.t.Locks([]int{a, b})
+			ma.write()
+			mb.write()
+			lk.t.Unlocks([]int{a, b})
+		}
+	})
+	t2 := symx.Go("singleWriter", func() {
+		lk.Lock(b)
+		mb.write()
+		lk.Unlock(b)
+	})
+	t3 := symx.Go("singleReader", func() {
+		lk.RLock(a)
+		ma.read()
+		lk.RUnlock(a)
+	})
+	symx.WaitQuiescent()
+	symx.MustFinish(t1, "no deadlock")
+	symx.MustFinish(t2, "no deadlock")
+	symx.MustFinish(t3, "no deadlock")
+	symx.Assert(lk.entries() == 0, "no per-key state left")
+	symx.Reach("end")
+}
+
 // C02/H3: lock order of the sharded generic locker. For a duplicate-free ascending key list the
 // per-key locks are taken shard by shard in increasing shard order and, inside a shard, in the caller's
 // order - one global order for every caller, which is what makes overlapping multi-key calls deadlock
